@@ -15,7 +15,16 @@ VAlt(ev) ==
   LET R == ev[2] V == ev[3] ws == ev[4] we == ev[5] o == ev[6]
       chunk == SubSeq(R, ws + 1, we)
       Vc == [k \in DOMAIN V |-> <<V[k][1] - ws, V[k][2] - ws, V[k][3]>>] IN
-  Ok(IsVal(o) /\ o[2] = Alt(chunk, Vc), "alternative-sequence")
+  FirstBad(<<
+    Ok(IsVal(o) /\ o[2] = Alt(chunk, Vc), "alternative-sequence"),
+    \* optional field 7 = <<start, end, length_difference>> per variant: alternative bases minus replaced bases, so that the
+    \* differences add up to the change in length of the whole haplotype
+    IF Len(ev) < 7 \/ ~IsVal(o) THEN "ok"
+    ELSE LET d == ev[7] IN
+         Ok(IsVal(d) /\ Len(d[2]) = Len(V)
+            /\ (\A k \in DOMAIN V : \E j \in DOMAIN d[2] :
+                   d[2][j] = <<V[k][1], V[k][2], Len(V[k][3]) - (V[k][2] - V[k][1])>>), "length-difference")
+  >>)
 
 (* ["altm", R, V, ws, we, outcome chars] : the same question on a chunk that sits on the MINUS strand of the chromosome:
    the edited window read in the chunk's orientation (reverse complement).  Keyed known finding: the library edits the
